@@ -120,6 +120,8 @@ func Battery(db *dbh.DB, m *dbh.MDB, defs []*dbh.TableDef, when string, identity
 			default:
 				probes = append(probes, dbh.StrV("zzzabsent"))
 			}
+			// keys that rows deleted or re-keyed earlier in the history carried: the index must not return those rows any more
+			probes = append(probes, m.Gone[def.Name+"."+c.Name]...)
 			for _, key := range probes {
 				want := m.Select(&dbh.Stmt{Kind: "select", Table: def.Name, Where: dbh.Leaf(c.Name, "=", key)}, dbh.EvalMode{})
 				got, err := db.PointScan(def.Name, ci, key)
